@@ -201,15 +201,16 @@ Proof.
   pose proof (run_ok_nonneg _ Hrs). pose proof hdr_pos. lia.
 Qed.
 
-(** what a history must satisfy for the bound: whenever the slow path collects, the collection frees a
-    chunk that fits the request ("no fragmentation failure": true when all requests have one size), the
-    bytes it did NOT free are at most [L], and the request is not larger than the last segment *)
+(** what a history must satisfy for the bound: whenever the slow path collects, either the collection frees
+    a chunk that fits the request or it frees nothing at all ("no fragmentation failure": with one size class
+    any freed object makes a chunk that fits), the bytes it did NOT free are at most [L], and the request is
+    not larger than the last segment *)
 Definition step_ok (L : Z) (st : state) (o : op) : Prop :=
   match o with
   | OGc _ => True
   | OAlloc size mss =>
     try_alloc st size = None -> forall st1 mf sf, gc st mss = Some (st1, mf, sf) ->
-      size <= mf /\ total_size st1 - sf <= L /\ size <= hsize (last (heaps st1) (make_heap 0))
+      (size <= mf \/ sf = 0) /\ total_size st1 - sf <= L /\ size <= hsize (last (heaps st1) (make_heap 0))
   end.
 
 Fixpoint hist_ok (L : Z) (st : state) (ops : list op) : Prop :=
@@ -234,8 +235,19 @@ Proof.
       assert (HB2 : within T0 L (if must_grow st1 size mf sf then grow st1 size else st1)).
       { destruct (must_grow st1 size mf sf) eqn:Eg.
         - unfold must_grow in Eg. apply andb_prop in Eg. destruct Eg as [Eg _].
-          apply orb_prop in Eg. destruct Eg as [Eg|Eg]; [apply Z.ltb_lt in Eg; lia|].
-          apply andb_prop in Eg. destruct Eg as [_ Eg]. apply Z.ltb_lt in Eg.
+          assert (Hlive : ratio_num * total_size st1 < ratio_den * L).
+          { assert (Hpos : 0 < total_size st1).
+            { destruct HI1 as (Hne1 & Hall1 & _). unfold total_size.
+              destruct (heaps st1) as [|h0 hs0]; [congruence|]. inversion Hall1 as [|? ? Hh0 Hall0]; subst.
+              pose proof (heap_inv_size_pos h0 Hh0). cbn [fold_right].
+              assert (0 <= fold_right (fun h a => hsize h + a) 0 hs0).
+              { clear -Hall0. induction Hall0 as [|h l Hh _ IH]; cbn [fold_right]; [lia|].
+                pose proof (heap_inv_size_pos h Hh). lia. }
+              lia. }
+            apply orb_prop in Eg. destruct Eg as [Eg|Eg].
+            - apply Z.ltb_lt in Eg. destruct Hfit as [Hfit|Hsf0]; [lia|]. subst sf.
+              unfold ratio_num, ratio_den. lia.
+            - apply andb_prop in Eg. destruct Eg as [_ Eg]. apply Z.ltb_lt in Eg. unfold ratio_den in *. lia. }
           destruct (grow_inv_lemma st1 size HI1 Hs Hd) as [_ Ht]. unfold within. rewrite Ht.
           unfold grow_size. rewrite factor_integral.
           replace (factor_num * Z.max (hsize (last (heaps st1) (make_heap 0))) size + 1 - 1)
